@@ -66,6 +66,8 @@ fn main() {
         p if p.starts_with("C06@") => c06::child(p[4..].parse().unwrap(), &outdir, seed, thorough),
         "C05" => dp::run_c05(&outdir, seed, thorough),
         "C01" => dp::run_c01(&outdir, seed, thorough),
+        "C09" => dp::run_c09(&outdir, seed, thorough),
+        "C04" => dp::run_c04(&outdir, seed, thorough),
         "GEN-FNMETA" => { if let Err(e) = c14::generate(&outdir) { eprintln!("{}", e); std::process::exit(1); } return; }
         "GEN-RULES" => { if let Err(e) = rules::generate(&outdir) { eprintln!("{}", e); std::process::exit(1); } return; }
         _ => { eprintln!("unknown property {}", prop); std::process::exit(2); }
